@@ -40,7 +40,29 @@ add("C22", "smmc", "model_checking", "exhaustive (state, chunk) enumeration on t
     "From each of the 16 key-value states over keys {a,b} x values {absent,'',x,y}, every chunk of up to 2 (quick) / 3 (thorough) commands (puts, deletes, CAS with every expected value) is applied as one batch to both real engines and compared with the sequential reference: success flags, get, get_multi (39 key lists), scan_prefix, plus a 64-subset sweep over 0xFF prefix-boundary keys; by induction over the state this covers every sequence and every chunking.",
     "State-machine behaviour depends only on the key-value contents; real engines in a scratch tmpfs directory.", "DESIGN.md section 4 C22")
 
-NOT_BUILT = "check not built yet in this session (work in progress; see DESIGN.md section 10 build order)"
+
+E1M = " Configurations: 3 voters + 2 joining learners from an established leader; the 3->5 voter promotion applied on the leader and the new voters but not on the old followers; a node bootstrapped alone, then joined by 2 learners; the same cluster after expansion to 3 voters (with crash/stop/restart)."
+e1("C03", "Membership histories (join, catch-up, BatchPromote, apply lag) explored exhaustively within the bounds on the real RaftMembership; every election is observed: a node that becomes leader without any other node's granted vote must have no other voter in its applied membership." + E1M)
+e1("C26", "Same membership exploration; history variable of every quorum ACTUALLY USED (each won election: candidate + granting voters and the voter set asked; each leader commit advance: the voters whose logs really hold the entry, and the leader's voter set). Oracle: two elections of one term, and an election of term T vs a commit of an earlier term, must share a node. The known defect (BatchPromote adds two voters in one step) is recorded in known_findings.json with a guard on 'configurations differ by two or more voters'; a disjoint pair under the same or single-step configurations is reported as a violation." + E1M)
+e1("C27", "Same membership exploration; oracles: a node whose role is learner never grants a vote; a join is answered successfully only once a committed AddNode entry for it exists; a node outside the initial voter set acts as voter (role follower/candidate/leader or Active voter in its own view) only after a committed (Batch)Promote names it; learners are excluded from the commit majority computed by the C09 oracle." + E1M)
+e1("C28", "Same membership exploration plus crash/graceful stop and restart of any node at any point; oracle: right after restart (before anything new is delivered) the node's members()/roles/statuses equal what it had applied before going down. The known defect (membership is rebuilt from the static initial_cluster at every start) is recorded with a guard on 'fell back to its static initial configuration'; any other mismatch is a violation." + E1M)
+add("C37", "clustermc", "model_checking", "exhaustive input-grid enumeration through the real client-to-state-machine encode/decode chain",
+    "Grid over keys/values {'', 'k', 0x00, 0xFF 0xFF 0xFF, 300 bytes}, expected values {absent, '', x}, TTLs {none, 0, 1, u64::MAX} for put, put-with-TTL, delete and CAS: each operation is proposed to a real single-voter leader (ClientCmd::Propose -> write_op_to_proto -> log entry -> decode_entries -> apply) and the Command observed at the state machine is compared field by field with the submitted operation. The known defect (TTL 0 decodes as 'no TTL') is recorded with a guard on that input class.",
+    "Real LeaderState::push_client_cmd, log, commit handler and apply path on a simulated single-node cluster.", "DESIGN.md section 4 C37")
+add("C18", "logmc", "fault_enumeration", "breadth-first enumeration of operation sequences on the real BufferedRaftLog with a crash (process + power-loss image) after every step",
+    "All sequences (depth 5 quick / 7 thorough) of leader appends, conflict-aware follower appends, purges, resets, flush() and 'IO task runs until idle' on the real BufferedRaftLog + its real batch_processor over a store with a written/synced split; after every operation both crash images are reopened with a fresh BufferedRaftLog: the recovered log must be gap-free, contain every entry covered by durable_index()/a successful flush() and not truncated since, and contain nothing a truncation replaced. Repeated under several fixed select! seeds of the IO task.",
+    "Crash points are the boundaries between log API calls and IO-task runs; in-memory model store (File/RocksDB stores' own crash behaviour: C20/C21).", "DESIGN.md section 4 C18")
+add("C20", "storemc", "fault_enumeration", "exhaustive operation-sequence enumeration (with reopen at every position) on the real File and RocksDB log stores against a reference map, plus crash-point images inside replace_range",
+    "All sequences (length <= 3 quick / 4 thorough) of persist_entries (ascending, out-of-order and re-written index sets), truncate, replace_range, purge, reset, flush on the real FileLogStore and RocksDB log store, with a reopen inserted at every position; after every step entries, last_index and purge boundary are compared live vs reopened vs reference vs the other engine; replace_range is additionally cut at every guarded crash point and the image must equal the pre- or post-state. Two File-store defects are recorded as known findings with input-class guards.",
+    "Real storage engines in a scratch tmpfs directory; File crash images are directory copies at guarded crash-point callbacks; RocksDB internals trusted.", "DESIGN.md section 4 C20")
+add("C21", "storemc", "fault_enumeration", "crash-point and torn-write enumeration of save_hard_state on the real File and RocksDB meta stores",
+    "Sequences of 1..3 saves with distinct (term, vote) values on the real File meta store: a crash image is taken at every guarded crash point inside save (after temp create, after write, after flush, after rename) plus torn variants of the last write (0, 1, half, len-1 bytes); each image is reopened and load_hard_state must return the previous or the new value (never undecodable/absent once a save completed). RocksDB meta store: save/reopen sequences.",
+    "Process-crash semantics for both stores; power-loss only demands old-or-new as the statement does; RocksDB WAL internals trusted.", "DESIGN.md section 4 C21")
+add("C34", "apimc", "model_checking", "exhaustive input-grid enumeration of RaftConfig::validate over boundary values",
+    "Full product of boundary values {0,1,2,typical,2^32,u64::MAX-1,u64::MAX} for the four lease/election fields (2401 tuples) crossed one-at-a-time and pairwise with the remaining seven numeric fields; for every configuration the real validate() is called and, when it accepts, every postcondition of the statement is evaluated in exact (u128) arithmetic.",
+    "Validators are independent per sub-struct except the lease-vs-election cross check, which gets the full product.", "DESIGN.md section 4 C34")
+
+NOT_BUILT = "check not built yet (work in progress, DESIGN.md section 10 build order); no verdict is claimed for this property"
 
 manifest = {
     "version": 1,
